@@ -941,4 +941,126 @@ example : parseBody (.plain (nestArr 500 (SObj.int [] true 2 (-7))).render) =
     .ok (.obj (nestArr 500 (SObj.int [] true 2 (-7))).value) :=
   parseBody_plain _ (nestArr_valid _ _ (by simp [SObj.Valid, SepOk])) (by rw [nestArr_depth]; decide)
 
+/-! ## 9. fonts: the `/Differences` of a simple font's `/Encoding` dictionary (fix b3a0e07)
+
+Was finding C01/font-text-differences: a Type1 or TrueType font whose `/Encoding` is a
+dictionary with `/Differences` and that has no `/ToUnicode` was decoded through the base
+encoding alone (`Type1Font.applyEncodingDifferences` counted the entries and dropped them,
+TrueType fonts never looked at the array). The reader model's font component
+(`parseFont` → `FontDecode.Font.differences` → `decodeShown`) follows the repaired code; the
+code before the fix is kept as `decodeShownOld`. The specification of an array of runs
+(`Differences.specRune`, ISO 32000-1 9.6.6.1) and the theorems about the font alone are C07's
+(`C07.differences_parse`, `differences_override`, `differences_tounicode_precedence`). -/
+
+/-- **read_font_differences** (the former finding, as a statement about the reader): a
+string shown in a font the page's `/Font` dictionary binds to a Type1 or TrueType dictionary
+without `/ToUnicode`, whose `/Encoding` dictionary carries `/Differences [runs]` - ANY list of
+runs over ANY base encoding - is reported, code by code, as the character the differences
+specify where they name the code (with a glyph name of the package's list) and as the base
+encoding's character elsewhere, NFC last; for every byte string that does not start with a
+byte-order mark. -/
+theorem read_font_differences (res : Res) (ext : Ext) (fontsD : Dict) (cur : Str) (fd ed : Dict) (st std : Str)
+    (hreg : dget fontsD cur = some (.dict fd))
+    (hst : dget fd kSubtype = some (.name st))
+    (hkind : (st = kType1 ∧ std = kStandardEncoding) ∨ (st = kTrueType ∧ std = kWinAnsiEncoding))
+    (rs : List Differences.Run)
+    (he : dget fd kEncoding = some (.dict ed))
+    (hd : dget ed kDifferences = some (.arr (Differences.renderRuns rs)))
+    (hw : widthsOk res fd = true) (htu : dget fd kToUnicode = none)
+    (e : Encoding.Enc) (hbase : baseEncoding ed std ≠ []) (hge : Encoding.getEncoding (baseEncoding ed std) = some e)
+    (data : Str) (hbytes : UTF16.AllBytes data) (hnb : C07.NoBOM data) :
+    decodeShown res ext (some fontsD) cur data =
+      .ok (ext.nfc (data.filterMap fun b =>
+        match C07.specByte rs e.table b with
+        | some r => if r ≠ 0 then some (UTF16.toRune r) else none
+        | none => none)) := by
+  obtain ⟨ds, hfont, hl⟩ := Differences.parseFont_differences res fd ed st std hst hkind rs he hd hw htu
+  unfold decodeShown registered
+  simp only [Option.bind_some, hreg, hfont]
+  rw [C07.differences_override ext.nfc _ hbase e hge rs ds hl data hbytes hnb]
+  rfl
+
+/-- **read_font_differences_tounicode**: with a `/ToUnicode` CMap beside the `/Differences`
+the CMap alone decides, as before the fix -/
+theorem read_font_differences_tounicode (res : Res) (ext : Ext) (fontsD : Dict) (cur : Str) (o : Pdf.Obj)
+    (cm : CMap.CMap) (enc : Str) (ds : FontDecode.Diffs)
+    (hreg : dget fontsD cur = some o) (hfont : parseFont res o = some ⟨some cm, enc, ds⟩) (data : Str) :
+    decodeShown res ext (some fontsD) cur data = .ok (ext.nfc (CMap.lookupString cm data)) ∧
+    decodeShown res ext (some fontsD) cur data = decodeShownOld res ext (some fontsD) cur data := by
+  unfold decodeShown decodeShownOld registered
+  simp only [Option.bind_some, hreg, hfont]
+  exact ⟨rfl, rfl⟩
+
+/-- **read_font_no_differences_unchanged**: a string shown in a font without `/Differences`
+(or with no font at all) is decoded exactly as before the fix -/
+theorem read_font_no_differences_unchanged (res : Res) (ext : Ext) (fonts : Option Dict) (cur : Str) (data : Str)
+    (h : ∀ f, (fonts.bind fun fd => registered res fd cur) = some f → f.differences = []) :
+    decodeShown res ext fonts cur data = decodeShownOld res ext fonts cur data := by
+  unfold decodeShown decodeShownOld
+  cases hf : (fonts.bind fun fd => registered res fd cur) with
+  | none => rfl
+  | some f =>
+    have hd := h f hf
+    obtain ⟨tu, enc, ds⟩ := f
+    simp only at hd
+    subst hd
+    rfl
+
+/-- the `/Font` dictionary of the finding's witness: `/F1 << /Type /Font /Subtype /Type1
+/Encoding << /BaseEncoding /WinAnsiEncoding /Differences [65 /Euro /eacute] >> >>` -/
+def exDiffFonts : Dict :=
+  [([70, 49], .dict [(kType, .name kFont), (kSubtype, .name kType1),
+    (kEncoding, .dict [(kBaseEncoding, .name kWinAnsiEncoding),
+      (kDifferences, .arr (Differences.renderRuns C07.exDiffRuns))])])]
+
+/-- the hypotheses of `read_font_differences` are satisfiable (the witness), and what the
+theorem gives there: `(AB)` shown in `/F1` is "€é", `(ABC)` is "€éC" -/
+example (ext : Ext) :
+    decodeShown (fun _ => .error .err) ext (some exDiffFonts) [47, 70, 49] [65, 66] = .ok (ext.nfc [0x20AC, 0xE9]) ∧
+    decodeShown (fun _ => .error .err) ext (some exDiffFonts) [47, 70, 49] [65, 66, 67] = .ok (ext.nfc [0x20AC, 0xE9, 67]) := by
+  have hf : (registered (fun _ => .error .err) exDiffFonts [47, 70, 49]).map
+      (fun f => (f.toUnicode.isSome, f.encoding, f.differences)) =
+      some (false, kWinAnsiEncoding, [(66, some 0xE9), (65, some 0x20AC)]) := by decide +kernel
+  cases hr : registered (fun _ => .error .err) exDiffFonts [47, 70, 49] with
+  | none => rw [hr] at hf; simp at hf
+  | some f =>
+    rw [hr] at hf
+    obtain ⟨tu, enc, ds⟩ := f
+    simp only [Option.map_some, Option.some.injEq, Prod.mk.injEq] at hf
+    obtain ⟨h1, h2, h3⟩ := hf
+    cases tu with
+    | some cm => simp at h1
+    | none =>
+      subst h2 h3
+      have p2 : FontDecode.preNFC ⟨none, kWinAnsiEncoding, [(66, some 0xE9), (65, some 0x20AC)]⟩ [65, 66] = some [0x20AC, 0xE9] := by
+        decide +kernel
+      have p3 : FontDecode.preNFC ⟨none, kWinAnsiEncoding, [(66, some 0xE9), (65, some 0x20AC)]⟩ [65, 66, 67] = some [0x20AC, 0xE9, 67] := by
+        decide +kernel
+      unfold decodeShown
+      simp only [Option.bind_some, hr, FontDecode.decodeString, p2, p3, Option.map_some, and_self]
+
+/-- **font_differences_pinned_counterexample**: the reader before b3a0e07 (`decodeShownOld`)
+reports the witness's `(AB)` as "AB" - the base encoding's characters - although the font
+defines "€é" (`nfc` = identity: both strings are in NFC) -/
+theorem font_differences_pinned_counterexample (filt : Filters.Ext) :
+    decodeShownOld (fun _ => .error .err) ⟨filt, id⟩ (some exDiffFonts) [47, 70, 49] [65, 66] = .ok [65, 66] ∧
+    decodeShown (fun _ => .error .err) ⟨filt, id⟩ (some exDiffFonts) [47, 70, 49] [65, 66] = .ok [0x20AC, 0xE9] := by
+  have hf : (registered (fun _ => .error .err) exDiffFonts [47, 70, 49]).map
+      (fun f => (f.toUnicode.isSome, f.encoding, f.differences)) =
+      some (false, kWinAnsiEncoding, [(66, some 0xE9), (65, some 0x20AC)]) := by decide +kernel
+  cases hr : registered (fun _ => .error .err) exDiffFonts [47, 70, 49] with
+  | none => rw [hr] at hf; simp at hf
+  | some f =>
+    rw [hr] at hf
+    obtain ⟨tu, enc, ds⟩ := f
+    simp only [Option.map_some, Option.some.injEq, Prod.mk.injEq] at hf
+    obtain ⟨h1, h2, h3⟩ := hf
+    cases tu with
+    | some cm => simp at h1
+    | none =>
+      subst h2 h3
+      have hp := C07.differences_pinned_counterexample
+      unfold decodeShownOld decodeShown
+      simp only [Option.bind_some, hr, hp.1, hp.2, and_self]
+
 end Tabula.C01R
